@@ -515,6 +515,93 @@ class Stmt:
         items.append(cur)
         return [' '.join(x) for x in items]
 
+    # -- key-domain agreement -------------------------------------------------------------------------
+    def _scope_chain(self, sc):
+        out = []
+        while sc is not None:
+            if sc in self.query_groups:
+                out.append(sc)
+            sc = self.group_parent.get(sc)
+        return out
+
+    def _colref_at(self, i):
+        """a column reference starting at token i: `alias . col` or bare `col` -> (qualifier, column, end index) or None"""
+        n = len(self.toks)
+        ident = re.compile(r'[A-Za-z_][A-Za-z_0-9]*$')
+        if i >= n or not ident.match(self.toks[i]) or self.up[i] in KEYWORDS or is_marker(self.toks[i]):
+            return None
+        if i + 2 < n and self.toks[i + 1] == '.' and ident.match(self.toks[i + 2]):
+            return self.toks[i], self.toks[i + 2], i + 3
+        if i + 1 < n and self.toks[i + 1] == '(':
+            return None     # function call
+        if i > 0 and self.toks[i - 1] == '.':
+            return None
+        return None, self.toks[i], i + 1
+
+    def resolve_column(self, schema, qual, col, at):
+        """-> table name of the column referenced at token `at`, looking through the enclosing query scopes; None if unknown"""
+        for sc in self._scope_chain(self.qscope(at)):
+            cands = [o for o in self.occs if o.scope == sc and o.kind == 'table']
+            if qual is not None:
+                for o in cands:
+                    if o.alias == qual:
+                        return o.table
+                continue
+            have = [o for o in cands if col == 'rowid' or schema.has_col(o.table, col)]
+            if len(have) == 1:
+                return have[0].table
+            if len(have) > 1:
+                return None
+        return None
+
+    def key_comparisons(self, schema):
+        """column-to-column comparisons of the statement: `a.x = b.y`, `a.x IN (SELECT b.y ...)`
+        -> [(left (table, col), right (table, col), token index)] with both sides resolved to schema tables"""
+        out = []
+        n = len(self.toks)
+        for i, t in enumerate(self.toks):
+            if t not in ('=', '==') and self.up[i] != 'IN':
+                continue
+            # left operand ends at i-1
+            j = i - 1
+            if self.up[i] == 'IN' and j >= 0 and self.up[j] == 'NOT':
+                j -= 1
+            if j < 0:
+                continue
+            start = j - 2 if j >= 2 and self.toks[j - 1] == '.' else j
+            left = self._colref_at(start)
+            if left is None or left[2] != j + 1:
+                continue
+            if t in ('=', '=='):
+                right = self._colref_at(i + 1)
+                if right is None:
+                    continue
+                # `a.x = b.y + 1` and the like are not key comparisons
+                if right[2] < n and self.toks[right[2]] in ('+', '-', '*', '/', '||', '('):
+                    continue
+                rat = i + 1
+            else:
+                k = i + 1
+                if not (k + 1 < n and self.toks[k] == '(' and self.up[k + 1] == 'SELECT'):
+                    continue
+                g = next((g_ for g_, o in self.group_open.items() if o == k), None)
+                items = self.subselect_list(g) if g is not None else None
+                if not items or len(items) != 1:
+                    continue
+                m = k + 2
+                if self.up[m] == 'DISTINCT':
+                    m += 1
+                right = self._colref_at(m)
+                if right is None or ' '.join(self.toks[m:right[2]]) != items[0]:
+                    continue
+                rat = m
+            lt = self.resolve_column(schema, left[0], left[1], start)
+            rt = self.resolve_column(schema, right[0], right[1], rat)
+            if lt is None or rt is None:
+                continue
+            out.append(((lt, left[1]), (rt, right[1]), i))
+        return out
+
     def inner_on_predicates(self, scope=0):
         """top-level AND-separated predicates of the ON clauses of plain / INNER joins of a scope (for an inner join a condition in
         ON and the same condition in WHERE select the same rows); LEFT / OUTER / CROSS joins are left out."""
